@@ -387,6 +387,10 @@ theorem tie_call_forwarding {α : Type} (rl store lockS delS bg conn : α) (lit 
 theorem tie_newLockFields {α : Type} (store key : α) (randn : Int → α) :
     newLockFields store key randn = [("store", store), ("key", key), ("id", randn 16)] := rfl
 
+/-- `init()` of redislock.go is one expression statement whose value is dropped (`rand.NewSource(…)` allocates a
+source and nothing keeps it): no assignment, no store to package state — nothing of the lock depends on it -/
+theorem tie_initBody : initBody = ["rand.NewSource(time.Now().UnixNano())"] := by decide
+
 example : (goHanded (.reply (.bulk "ok"))).app acquireDecide = (false, false) ∧
     (goHanded .nilNoErr).app releaseDecide = (false, false) := by decide
 
